@@ -184,6 +184,21 @@ class World:
             raise Violation("C12", "snapshot", "instruction.__eq__", "%s: equality with pristine twin %s -> %s" % (where, b["eq"], after["eq"]))
 
 
+def _get_generators(state):
+    """Positions of the generators a state carries with its Config (numpy Generator and, since the
+    repair of the first C11 defect, a random.Random); they advance when the state is executed on."""
+    cfg = state._config
+    r = getattr(cfg, "random", None)
+    return (cfg.rng.bit_generator.state, r.getstate() if r is not None else None)
+
+
+def _set_generators(state, saved):
+    cfg = state._config
+    cfg.rng.bit_generator.state = saved[0]
+    if saved[1] is not None and getattr(cfg, "random", None) is not None:
+        cfg.random.setstate(saved[1])
+
+
 def _same(a, b):
     if isinstance(a, np.ndarray) or isinstance(b, np.ndarray):
         return isinstance(a, np.ndarray) and isinstance(b, np.ndarray) and a.shape == b.shape and a.dtype == b.dtype and a.tobytes() == b.tobytes()
@@ -253,6 +268,10 @@ class History:
     def run(self):
         sc = self.sc
         w = self.world = World(sc)
+        # "re-executing the same objects gives the same outcome as the first time": the first time
+        self.first = self.fresh_execute(w, w.program, w.initial_state)
+        if not isinstance(self.first, Exception):
+            w.compare("after the first execution")
         for n, op in enumerate(sc["ops"]):
             name = op["op"]
             self.stats["ops"][name] = self.stats["ops"].get(name, 0) + 1
@@ -365,6 +384,29 @@ class History:
     def op_kernel(self, w, op):
         return kernel_probe(w.simulator._connector, op)
 
+    def fresh_execute(self, w, program, initial_state):
+        """Execute on the given caller objects with a fresh simulator built from the user Config's current fields."""
+        import piquasso as pq
+
+        subj = w.subj
+        fields = {k: getattr(w.config, k) for k in ("dtype", "measurement_cutoff", "hbar", "use_torontonian", "cache_size", "validate", "use_dask", "max_sample_generation_trials")}
+        if w.config._cutoff_was_explicit:
+            fields["cutoff"] = w.config.cutoff
+        fields["seed_sequence"] = w.config._original_seed_sequence
+        rng_state = None
+        if initial_state is not None:
+            # executing on a state advances the generator it carries (documented sharing); rewind it afterwards so
+            # that this extra execution is invisible to the history that follows
+            rng_state = _get_generators(initial_state)
+        try:
+            sim = w.simcls(d=subj["d"], config=pq.Config(**fields))
+            return result_view(sim.execute(program, shots=subj["shots"], initial_state=initial_state), subj["shots"])
+        except Exception as e:  # noqa: BLE001
+            return e
+        finally:
+            if rng_state is not None:
+                _set_generators(initial_state, rng_state)
+
     # ---- re-execution equals execution of pristine copies
     def final_equivalence(self, w):
         import piquasso as pq
@@ -379,7 +421,7 @@ class History:
             # A state carries the generator of the Config it was created with (Config.copy
             # shares rng by design) and executing on it advances that generator; its
             # position is not part of what is compared, so the pristine twin is aligned.
-            w.initial_state0._config.rng.bit_generator.state = w.initial_state._config.rng.bit_generator.state
+            _set_generators(w.initial_state0, _get_generators(w.initial_state))
         try:
             ref_sim = w.simcls(d=subj["d"], config=spec.build_config(subj["config"]))
             ref = result_view(ref_sim.execute(w.program0, shots=shots, initial_state=w.initial_state0), shots)
@@ -396,6 +438,10 @@ class History:
         if why:
             raise Violation("C12", "reexecute", "differs", why)
         w.compare("after final re-execution")
+        if not isinstance(self.first, Exception) and w.initial_state is None:
+            why = views_equal(got, self.first)
+            if why:
+                raise Violation("C12", "reexecute", "differs-from-first-time", "re-executing the same objects with a fresh same-seed simulator does not give what the first execution gave: " + why)
         self.log.add("final", got["branches"], got.get("samples"))
 
 
